@@ -23,7 +23,7 @@ if [ "$1" = "-e" ]; then
   after=$(md5sum "$root/repo/$file")
   if [ "$before" = "$after" ]; then echo "MUTATION DID NOT APPLY"; rm -rf "$root"; exit 3; fi
 else
-  patch=$1; shift
+  patch=$(readlink -f "$1"); shift
   (cd "$root/repo" && patch -p1 --no-backup-if-mismatch < "$patch") || { echo "PATCH FAILED"; rm -rf "$root"; exit 3; }
 fi
 [ "$1" = "--" ] && shift
